@@ -280,18 +280,25 @@ func (a *batchConn) batchSendLoop(cfg config.TiKVClient) {
 }
 
 // failQueuedAsyncRequestsOnClose fails the async requests that are still queued when the send loop exits because
-// the conn is closed. Nobody will send them, and unlike the sync callers they don't wait for the closed signal.
+// the conn is closed or has become idle. Nobody will send them, and unlike the sync callers they don't wait for the
+// closed signal.
 func (a *batchConn) failQueuedAsyncRequestsOnClose() {
+	var err error
 	select {
 	case <-a.closed:
+		err = errors.New("batchConn closed")
 	default:
-		return
+		// An idle batchConn never becomes active again: it is only waiting to be recycled.
+		if !a.isIdle() {
+			return
+		}
+		err = errors.New("rpcClient is idle")
 	}
 	for {
 		select {
 		case entry := <-a.batchCommandsCh:
 			if entry != nil && entry.async() {
-				entry.error(errors.New("batchConn closed"))
+				entry.error(err)
 			}
 		default:
 			return
